@@ -38,7 +38,8 @@ theorem succ_replace {P Q : List Elt} {e0 s : Elt} (hs : Sorted (P ++ e0 :: s ::
 
 /-- L3 core: `delete` on a well-shaped sorted subtree whose top node may lose one element -/
 theorem delete_spec {t : Nat} (ht : 2 ≤ t) : ∀ (h : Nat) (n : Node) (k : Nat), Shape t h n → Sorted (flat n) →
-    (h ≠ 0 → 1 ≤ n.elts.length) → DelSpec t h n k (delete t h n k none) := by
+    (h ≠ 0 → 1 ≤ n.elts.length ∨ ∀ c ∈ n.children, c.elts.length ≠ minKeys t) →
+    DelSpec t h n k (delete t h n k none) := by
   intro h
   induction h with
   | zero =>
@@ -62,7 +63,8 @@ theorem delete_spec {t : Nat} (ht : 2 ≤ t) : ∀ (h : Nat) (n : Node) (k : Nat
     obtain ⟨es, cs, rfl, hlen, hkids⟩ := shape_succ hn
     have hk : Kids t h es cs := ⟨hlen, hkids⟩
     have hes := sorted_elts hs
-    have hpos' : 1 ≤ es.length := by simpa [Node.elts] using hpos (by omega)
+    have hpos' : 1 ≤ es.length ∨ ∀ c ∈ cs, c.elts.length ≠ minKeys t := by
+      simpa [Node.elts, Node.children] using hpos (by omega)
     unfold delete
     simp only [Node.elts]
     rcases search_cases k hes with ⟨el, er, rfl, hl, hr, hres⟩ | ⟨el, e0, er, rfl, h0, hl, hr, hres⟩
@@ -70,7 +72,10 @@ theorem delete_spec {t : Nat} (ht : 2 ≤ t) : ∀ (h : Nat) (n : Node) (k : Nat
       obtain ⟨cl, c, cr, rfl, hcl, hcr⟩ := kids_split hk.1
       simp only [hres, Bool.false_eq_true, false_and, if_false]
       obtain ⟨el1, er1, cl1, c1, cr1, hprep, hcl1, hk1, hflat1, hwl1, hwr1, hc1, hlo, hhi⟩ :=
-        delPrep_spec ht hk hcl hs hpos' hl hr
+        delPrep_spec ht hk hcl hs (fun hm => by
+          rcases hpos' with h1 | h2
+          · exact h1
+          · exact absurd hm (h2 c (by simp))) hl hr
       rw [hprep]
       simp only [kidAt_at hcl1, setAt_at hcl1]
       have hs1 : Sorted (flat (.node (el1 ++ er1) (cl1 ++ c1 :: cr1))) := by rw [hflat1]; exact hs
@@ -78,7 +83,7 @@ theorem delete_spec {t : Nat} (ht : 2 ≤ t) : ∀ (h : Nat) (n : Node) (k : Nat
         have := hs1
         rw [flat_node_split el1 er1 cl1 c1 cr1 hcl1] at this
         exact (sorted_append_iff.mp (sorted_append_iff.mp this).1).2.1
-      have hc := ih c1 k (hk1.2 c1 (by simp)).1 hsc1 (fun _ => by omega)
+      have hc := ih c1 k (hk1.2 c1 (by simp)).1 hsc1 (fun _ => Or.inl (by omega))
       rcases hdc : delete t h c1 k none with ⟨c1', r⟩
       rw [hdc] at hc
       obtain ⟨d1, d2, d3⟩ := del_descend hk1 hcl1 hs1 hwl1 hwr1 hc hc1
@@ -118,7 +123,7 @@ theorem delete_spec {t : Nat} (ht : 2 ≤ t) : ∀ (h : Nat) (n : Node) (k : Nat
           have hsq := (sorted_cons_iff.mp (sorted_cons_iff.mp (sorted_append_iff.mp hsn).2.1).2).1
           exact hsq x (List.mem_append.mpr (Or.inr (mem_RF_of_mem (cr := cr') hx)))
         obtain ⟨el1, er1, cl1, c1, cr1, hprep, hcl1, hk1, hflat1, hwl1, hwr1, hc1, hlo, hhi⟩ :=
-          delPrep_spec ht hk2 hcl2 hs2 (by simp <;> omega) hwl2 hwr2
+          delPrep_spec ht hk2 hcl2 hs2 (fun _ => by simp <;> omega) hwl2 hwr2
         simp only [List.append_assoc, List.singleton_append, List.length_append, List.length_cons,
           List.length_nil, Nat.zero_add] at hprep hflat1 hlo hhi
         rw [hprep]
@@ -128,7 +133,7 @@ theorem delete_spec {t : Nat} (ht : 2 ≤ t) : ∀ (h : Nat) (n : Node) (k : Nat
           have := hs1
           rw [flat_node_split el1 er1 cl1 c1 cr1 hcl1] at this
           exact (sorted_append_iff.mp (sorted_append_iff.mp this).1).2.1
-        have hc := ih c1 s.1 (hk1.2 c1 (by simp)).1 hsc1 (fun _ => by omega)
+        have hc := ih c1 s.1 (hk1.2 c1 (by simp)).1 hsc1 (fun _ => Or.inl (by omega))
         rcases hdc : delete t h c1 s.1 none with ⟨c1', r⟩
         rw [hdc] at hc
         obtain ⟨d1, d2, d3⟩ := del_descend hk1 hcl1 hs1 hwl1 hwr1 hc hc1
